@@ -124,7 +124,9 @@ def limits_for(pattern, g, c):
 
 IFACE_MODELS = ["cylinder", "core_shell_sphere", "parallelepiped", "ellipsoid"]
 SV_SPECS = [("width", 0.15), ("width", 1.5), ("npts", 4), ("npts", 1), ("nsigmas", 2.5), ("type", "schulz"),
-            ("type", "rectangle"), ("value", 1.37)]
+            ("type", "rectangle"), ("value", 1.37), ("fitrange", 0.2)]
+# "fitrange": the per-instance details table (units, min, max) is what a fit page overwrites with the user's FIT
+# range; it is not a hard limit and must not cut the distribution (seeded change C02-f2)
 
 
 def _iface_cases(ctx):
@@ -290,6 +292,10 @@ def _run_sv(case, ctx):
                         val = decl[name]["value"] * v if decl[name]["value"] else v
                         m.setParam(name, val)
                         decl[name]["value"] = val
+                    elif f == "fitrange":
+                        c = decl[name]["value"]
+                        units = m.details[name][0] if name in m.details else ""
+                        m.details[name] = [units, c - abs(c) * v * 0.5 - 0.1, c + abs(c) * v * 0.5 + 0.1]
                     else:
                         m.setParam("%s.%s" % (name, f), v)
                         decl[name][f] = v
